@@ -2,17 +2,18 @@
 """store_mut.py <prop> <name> <crate> <demo file> <change> | <needs> | <caught by ; separated> | <history>"""
 import json, os, shutil, sys
 pid, name, crate, demo = sys.argv[1:5]
+ROOT = os.environ.get("MUTROOT", "/tmp/mut")
 what, needs, caught, hist = [x.strip() for x in " ".join(sys.argv[5:]).split("|")]
 d = f"/verif/seeded/{name}"
 os.makedirs(d, exist_ok=True)
-shutil.copy(f"/tmp/mut/{pid}_out/patch.diff", d)
-shutil.copy(f"/tmp/mut/{pid}_out/{demo}", d)
-shutil.copy(f"/tmp/mut/{pid}_out/README.md", os.path.join(d, "AGENT_README.md"))
+shutil.copy(f"{ROOT}/{pid}_out/patch.diff", d)
+shutil.copy(f"{ROOT}/{pid}_out/{demo}", d)
+shutil.copy(f"{ROOT}/{pid}_out/README.md", os.path.join(d, "AGENT_README.md"))
 meta = {"property": pid, "change": what, "needs_to_manifest": needs,
         "demonstration": {"file": demo, "where": f"{crate}/tests/{demo}", "run": f"cargo test -p {crate} --test {demo[:-3]} --offline"},
-        "confirmed": f"scratch worktree /tmp/mut/{pid}: cargo test --workspace --offline -> 53 passed with the change; demo fails with the change, passes with the change stashed (confirm_mut.sh)",
+        "confirmed": f"scratch worktree {ROOT}/{pid}: cargo test --workspace --offline -> 53 passed with the change; demo fails with the change, passes with the change stashed (confirm_mut.sh)",
         "caught_by": [c.strip() for c in caught.split(";")], "history": hist,
         "how_checked": f"./evalmut.sh seeded/{name}/patch.diff {pid}  (git -C /repo apply; ./check <id>; git -C /repo checkout -- .)"}
 json.dump(meta, open(os.path.join(d, "meta.json"), "w"), indent=1)
-os.system(f"git -C /repo worktree remove --force /tmp/mut/{pid}; rm -rf /tmp/mut/{pid}_target /tmp/mut/{pid}_out /tmp/mut/{pid}_cur.diff")
+os.system(f"git -C /repo worktree remove --force {ROOT}/{pid}; rm -rf {ROOT}/{pid}_target {ROOT}/{pid}_out {ROOT}/{pid}_cur.diff")
 print("stored", d)
